@@ -4,28 +4,32 @@ Applies the patch to /repo, runs the quick tier of the given checks (default: al
 writes <mutant dir>/eval.json (which checks reported a violation, with the invariant line). /repo must be clean."""
 import json, os, subprocess, sys, time
 m = sys.argv[1]
+# MUT_REPO / MUT_VERIF: evaluate against a scratch worktree of /repo with a scratch copy of /verif whose sim/go.mod points
+# at that worktree (parallel evaluation without touching /repo); default: /repo and /verif themselves
+REPO = os.environ.get("MUT_REPO", "/repo")
+VERIF = os.environ.get("MUT_VERIF", "/verif")
 ids = sys.argv[2:]
 tier = os.environ.get("MUT_TIER", "quick")
 if not ids:
     ids = [c["property_id"] for c in json.load(open("/verif/MANIFEST.json"))["checks"]]
-st = subprocess.run(["git", "-C", "/repo", "status", "--porcelain"], capture_output=True, text=True).stdout.strip()
+st = subprocess.run(["git", "-C", REPO, "status", "--porcelain"], capture_output=True, text=True).stdout.strip()
 if st:
-    sys.exit("/repo is not clean: " + st)
-r = subprocess.run(["git", "-C", "/repo", "apply", os.path.join(m, "patch.diff")], capture_output=True, text=True)
+    sys.exit(REPO + " is not clean: " + st)
+r = subprocess.run(["git", "-C", REPO, "apply", os.path.join(m, "patch.diff")], capture_output=True, text=True)
 if r.returncode:
     sys.exit("patch does not apply: " + r.stderr)
 res = {}
 try:
     for pid in ids:
         t0 = time.time()
-        p = subprocess.run(["./checks/run.sh", pid, tier], cwd="/verif", capture_output=True, text=True)
+        p = subprocess.run(["./checks/run.sh", pid, tier], cwd=VERIF, env=dict(os.environ, VERIF_REPO=REPO), capture_output=True, text=True)
         viol = [l for l in p.stdout.splitlines() if l.startswith("violation:")]
         res[pid] = {"exit": p.returncode, "wall_s": round(time.time() - t0, 1), "violation": (viol[0][:400] if viol else ""),
                     "stderr": p.stderr[-600:] if p.returncode not in (0, 1) else ""}
         print(pid, p.returncode, res[pid]["wall_s"], res[pid]["violation"][:160], flush=True)
 finally:
-    subprocess.run(["git", "-C", "/repo", "checkout", "--", "."])
-    subprocess.run(["git", "-C", "/repo", "clean", "-fdq"])
+    subprocess.run(["git", "-C", REPO, "checkout", "--", "."])
+    subprocess.run(["git", "-C", REPO, "clean", "-fdq"])
 json.dump({"tier": tier, "results": res}, open(os.path.join(m, "eval.json" if tier == "quick" else "eval_thorough.json"), "w"), indent=1)
 caught = [k for k, v in res.items() if v["exit"] == 1]
 print("CAUGHT BY:", caught, "| infra trouble:", [k for k, v in res.items() if v["exit"] not in (0, 1)])
